@@ -155,9 +155,12 @@ def sequence(args):
                 e.update(act='absorb', to=rng.choice(('first', 'last')))
                 psi.absorb_central_(to=e['to'])
             elif r < 0.62:
-                e.update(act='diag', nz=rng.random() < 0.5, binding=False)
+                e.update(act='diag', nz=rng.random() < 0.5, binding=False, shrinks=False)
+                dims0 = psi.A[psi.pC].get_shape() if psi.pC is not None else None
                 d = psi.diagonalize_central_(opts_svd={'tol': 1e-14}, normalize=e['nz'])
                 e['disc'] = float(d)
+                # exactly-zero Schmidt values of a rank-deficient block are dropped (no weight discarded): U, V non-square, the bond shrinks
+                e['shrinks'] = bool(dims0 is not None and psi.pC is not None and psi.A[psi.pC].get_shape()[0] < max(dims0))
             elif r < 0.8:
                 e.update(act='canonize', to=rng.choice(('first', 'last')), nz=rng.random() < 0.5)
                 psi.canonize_(to=e['to'], normalize=e['nz'])
